@@ -5,6 +5,7 @@ package main
 import (
 	"fmt"
 	"os"
+	"regexp"
 	"strconv"
 	"strings"
 	"unicode"
@@ -548,6 +549,7 @@ type ContractSet struct {
 	Scan    []string // lines containing assume/trusted/axiom for the report
 	PkgMode map[string]PkgMode
 	ObjInvs map[string][]*Clause // pkgpath.TypeName → invariants over `self`
+	SeqItems []*SinkRule        // seq-items <Method>(params) yields(a, b) ensures E
 }
 
 type PkgMode struct {
@@ -563,7 +565,7 @@ var clauseKeywords = map[string]bool{
 	"func": true, "requires": true, "ensures": true, "loop": true, "modifies": true, "trusted": true,
 	"pure": true, "inline": true, "noinline": true, "strings": true, "bytes": true, "panics": true, "bind": true, "sink": true,
 	"axiom": true, "log": true, "atomic": true, "guarded_by": true, "immutable": true, "must-close": true,
-	"opaque": true, "unroll": true, "yield-requires": true, "invariant": true, "producer": true, "closure": true, "package": true, "assume-return": true,
+	"opaque": true, "unroll": true, "yield-requires": true, "invariant": true, "seq-items": true, "producer": true, "closure": true, "package": true, "assume-return": true,
 }
 
 // LoadContractFile parses one contracts_verif.go file (or any file with //@ lines).
@@ -765,6 +767,26 @@ func (cs *ContractSet) LoadContractFile(path, pkgPath string) error {
 			} else if cur != nil {
 				cur.Pure = true
 			}
+		case "seq-items":
+			// seq-items Method(p1, p2) yields(a, b) ensures E
+			// assumed interface contract: the items a Seq returned by
+			// Interface.Method(p1, p2) hands to its consumer satisfy E
+			m := regexp.MustCompile(`^(\w+)\(([^)]*)\)\s+yields\(([^)]*)\)\s+ensures\s+(.*)$`).FindStringSubmatch(rest)
+			if m == nil {
+				return fmt.Errorf("%s:%d: bad seq-items", path, it.line)
+			}
+			sr := &SinkRule{Method: m[1], Pkg: pkgPath}
+			for _, pn := range strings.Split(m[2], ",") {
+				sr.Params = append(sr.Params, strings.TrimSpace(pn))
+			}
+			sr.Owner = m[3] // yields parameter names, comma separated
+			c, err := mkClause("ensures", m[4])
+			if err != nil {
+				return err
+			}
+			sr.Ens = append(sr.Ens, c)
+			cs.SeqItems = append(cs.SeqItems, sr)
+			cs.Scan = append(cs.Scan, fmt.Sprintf("%s:%d: assumed interface contract: %s", path, it.line, t))
 		case "invariant":
 			// invariant (*T) E   — object invariant over `self`
 			close := strings.IndexByte(rest, ')')
